@@ -90,6 +90,37 @@ c20_obs(Big, A, B, K, o(U,E,O,Lt,N,App,Spl,Nth,H,T,Ar,Nm,Un,Cp,Fa,As,Ac,So,Ks,G,
     c20_t((term_variables(A, TV0), length(TV0, TV1)), TV1, TV),
     c20_t(write_term_to_chars(A, [quoted(true)], W0), W0, W).
 
+c20_op(unify, _, A, B, _, R) :- c20_b(A = B, R).
+c20_op(eq, _, A, B, _, R) :- c20_b(A == B, R).
+c20_op(compare, _, A, B, _, R) :- c20_t(compare(O, A, B), O, R).
+c20_op(lt, _, A, B, _, R) :- c20_b(A @< B, R).
+c20_op(length, _, A, _, _, R) :- c20_t(length(A, N), N, R).
+c20_op(append, _, A, B, _, R) :- c20_t(append(A, B, X), X, R).
+c20_op(append_splits, _, A, _, _, R) :- c20_t((findall(X-Y, append(X, Y, A), Sp), length(Sp, N)), N, R).
+c20_op(nth0, _, A, _, K, R) :- c20_t(nth0(K, A, C), C, R).
+c20_op(arg1, _, A, _, _, R) :- c20_t(arg(1, A, X), X, R).
+c20_op(arg2, _, A, _, _, R) :- c20_t(arg(2, A, X), X, R).
+c20_op(functor_name, _, A, _, _, R) :- c20_t(functor(A, X, _), X, R).
+c20_op(functor_arity, _, A, _, _, R) :- c20_t(functor(A, _, X), X, R).
+c20_op(univ, _, A, _, _, R) :- c20_t((A =.. L, length(L, N)), N, R).
+c20_op(copy_term, _, A, _, _, R) :- c20_t(copy_term(A, X), X, R).
+c20_op(findall, _, A, _, _, R) :- c20_t(findall(Z, Z = A, [X]), X, R).
+c20_op(assert_retrieve, _, A, _, _, R) :- c20_t(c20_assert(A, X), X, R).
+c20_op(atom_chars, _, A, _, _, R) :- c20_t((atom_chars(At, A), atom_chars(At, X)), X, R).
+c20_op(sort, _, A, _, _, R) :- c20_t(sort(A, X), X, R).
+c20_op(keysort, _, A, _, _, R) :- c20_t((pairs_keys_values(P, A, A), keysort(P, Q), pairs_keys(Q, X)), X, R).
+c20_op(ground, _, A, _, _, R) :- c20_b(ground(A), R).
+c20_op(term_variables, _, A, _, _, R) :- c20_t((term_variables(A, V), length(V, N)), N, R).
+c20_op(writeq, _, A, _, _, R) :- c20_t(write_term_to_chars(A, [quoted(true)], X), X, R).
+
+c20_pop(eq, A, _, B, _, R) :- c20_b(A == B, R).
+c20_pop(compare, A, _, B, _, R) :- c20_t(compare(O, A, B), O, R).
+c20_pop(unify, A, _, B, _, R) :- c20_b(\+ \+ A = B, R).
+c20_pop(unify_result, A, TA, B, TB, R) :- c20_t(findall(A-TA-TB, A = B, X), X, R).
+c20_pop(term_variables, A, _, _, _, R) :- c20_t((term_variables(A, V), length(V, N)), N, R).
+c20_pop(ground, A, _, _, _, R) :- c20_b(ground(A), R).
+c20_pop(length, A, _, _, _, R) :- c20_t(findall(N, once(length(A, N)), X), X, R).
+
 c20_pobs(A, TA, B, TB, p(VO,E,O,U,Af,NV,G,Ln)) :-
     c20_t(compare(VO0, TA, TB), VO0, VO),
     c20_b(A == B, E),
@@ -502,28 +533,104 @@ def run_queries(ctx, queries, tag, per_job=150):
     return out
 
 
-def shape_key(field, ka, kb):
-    return "pstr:%s:%s" % (field, ("%s/%s" % (ka, kb)) if field in BINARY else ka)
+SHAPE = {}
+for _k in ("lit", "atom_chars", "copy_term", "findall_copy", "assert_retrieve", "partial_string_nil", "clause_head", "clause_body",
+           "partial_string", "copied_partial_string", "bound_before"): SHAPE[_k] = "whole"          # pointer to the start of a segment
+for _k in ("suffix", "lit_tail", "unify_tail", "append_tail", "copied_tail", "partial_string_tail"): SHAPE[_k] = "suffix"   # pointer into a segment
+for _k in ("cons", "univ", "functor_arg", "findall_member", "revrev", "length_unify", "maplist", "append", "list_syntax"): SHAPE[_k] = "cons"
+for _k in ("halves", "twoseg", "append_lits", "two_partial_strings"): SHAPE[_k] = "mixed"          # cons cells / a segment continued by a segment
+
+
+def shape_key(field, ka, kb, prefix="pstr:"):
+    return "%s%s:%s" % (prefix, field, ("%s/%s" % (SHAPE[ka], SHAPE[kb])) if (field in BINARY or prefix != "pstr:") else SHAPE[ka])
+
+
+def obs_key(ans):
+    if isinstance(ans, dict) and "b" in ans and "O" in ans["b"]:
+        if "_key" not in ans: ans["_key"] = repr(terms.from_json(ans["b"]["O"]))    # strings and explicit lists are the same term
+        return ans["_key"]
+    return None
+
+
+def panic_class(ans):
+    import re
+    if isinstance(ans, dict) and "panic" in ans:
+        return re.sub(r"`[^`]*`|'[^']*'|\d+", "_", str(ans["panic"]))[:80]
+    return None
+
+
+def recheck(ctx, qlist, answers, group_of, tag, max_panic_groups=40):
+    """Every query whose answer is not the majority observation of its case is run again alone on a fresh machine
+    (its first answer may have been disturbed by an earlier panic on the shared machine).  Panicking queries are
+    sampled (two per panic class and shape pair).  Returns the list of queries that panicked again (for bisecting)."""
+    by_case = {}
+    for q in qlist: by_case.setdefault(group_of[q[0]][0], []).append(q)
+    suspects, panics = [], {}
+    for ci, qs in by_case.items():
+        counts = {}
+        for q in qs:
+            k = obs_key(answers.get(q[0]))
+            if k is not None: counts[k] = counts.get(k, 0) + 1
+        major = max(counts, key=lambda k: counts[k]) if counts else None
+        for q in qs:
+            a = answers.get(q[0])
+            if obs_key(a) is not None and obs_key(a) == major: continue
+            pc = panic_class(a)
+            if pc is not None:
+                g = (pc, SHAPE[group_of[q[0]][1]], SHAPE[group_of[q[0]][2]])
+                panics.setdefault(g, []).append(q)
+            else:
+                suspects.append(q)
+    for g, qs in sorted(panics.items())[:max_panic_groups]:
+        suspects += qs[:2]
+    if suspects:
+        answers.update(run_queries(ctx, suspects, tag, per_job=1))
+    sus = {q[0] for q in suspects}
+    return [q for q in suspects if panic_class(answers.get(q[0])) is not None], sus
+
+
+def bisect(ctx, panicking, qparts, opnames, tag):
+    """panicking: queries (qid, text, consult) that panic on a fresh machine.  Runs every operation alone (one fresh machine
+    per query, the operations one after the other) and returns {qid: [(op, panic message)]}"""
+    jobs = []
+    for q in panicking:
+        prefix, mk = qparts[q[0]]
+        jobs.append({"id": "b_" + q[0], "consult": LIB + (q[2] or ""), "queries": [prefix + mk(op) for op in opnames],
+                     "max_answers": 1, "timeout_ms": 20000, "fresh": True})
+    res = core.vrun_query(ctx.prop, jobs, tag=tag) if jobs else {}
+    out = {}
+    for q in panicking:
+        rec = res.get("b_" + q[0], {})
+        found = []
+        for op, ans in zip(opnames, rec.get("results") or []):
+            if ans and isinstance(ans[0], dict) and "panic" in ans[0]: found.append((op, str(ans[0]["panic"])[:200]))
+        out[q[0]] = found
+    return out
 
 
 def run(ctx):
+    import re
     rng = ctx.rng
     failures, tie_breaks = [], []
     dist = {"class": {}, "rep_pairs": 0, "byte_len_mod8": {}, "ops_per_observation": len(FIELDS)}
-    fail_keys = set()
+    per_key = {}
 
     def fail(key, what, inp, impl, spec):
-        if key in fail_keys and sum(1 for f in failures if f["key"] == key) >= 3: return
-        fail_keys.add(key)
+        per_key[key] = per_key.get(key, 0) + 1
+        if per_key[key] > 2: return
         failures.append({"key": key, "what": what, "input": inp, "impl": impl, "spec": spec, "property_fails": True})
 
     # ============================================================ A + B: closed strings
     cases = gen_closed_cases(rng, ctx)
     tcases = gen_tail_cases(rng, ctx)
-    queries = []          # (qid, text, consult)
-    qinfo = {}            # qid -> (case index, kind_a, kind_b)
-    clause_queries = []
+    queries, clause_queries = [], []          # (qid, text, consult)
+    qinfo, qparts = {}, {}                    # qid -> (case index, kind_a, kind_b) ; qid -> (prefix, op -> final goal)
     allcases = []
+    def addq(lst, qid, prefix, big, k, consult, info):
+        bigt = "true" if big else "false"
+        lst.append((qid, "%sc20_obs(%s, A, B, %d, O)." % (prefix, bigt, k), consult))
+        qinfo[qid] = info
+        qparts[qid] = (prefix, lambda op, bigt=bigt, k=k: "c20_op(%s, %s, A, B, %d, R)." % (op, bigt, k))
     for c in cases + tcases:
         ci = len(allcases); allcases.append(c)
         a, b, big = c["a"], c["b"], c["big"]
@@ -540,79 +647,77 @@ def run(ctx):
             else:
                 pairs = [(ra[0], y) for y in rb] + [(x, rb[0]) for x in ra[1:]] + [(rng.choice(ra), rng.choice(rb)) for _ in range(12)]
         for (ka, ga), (kb, gb) in pairs:
-            qid = "c%d_%d" % (ci, len(queries))
-            text = "%s, %s, c20_obs(%s, A, B, %d, O)." % (ga("A"), gb("B"), "true" if big else "false", c["k"])
-            queries.append((qid, text, "")); qinfo[qid] = (ci, ka, kb)
+            addq(queries, "c%d_%d" % (ci, len(queries)), "%s, %s, " % (ga("A"), gb("B")), big, c["k"], "", (ci, ka, kb))
         # strings in clause heads / bodies (separate jobs: a rejected clause must not disturb the others)
         if not big and "base_a" not in c and rng.random() < 0.5:
             n = len(clause_queries)
-            consult = "c20_fa%d(%s).\nc20_fb%d(X) :- X = %s.\n" % (n, lit(a), n, lit(b))
-            qid = "k%d_%d" % (ci, n)
-            clause_queries.append((qid, "c20_fa%d(A), c20_fb%d(B), c20_obs(false, A, B, %d, O)." % (n, n, c["k"]), consult))
-            qinfo[qid] = (ci, "clause_head", "clause_body")
+            addq(clause_queries, "k%d_%d" % (ci, n), "c20_fa%d(A), c20_fb%d(B), " % (n, n), False, c["k"],
+                 "c20_fa%d(%s).\nc20_fb%d(X) :- X = %s.\n" % (n, lit(a), n, lit(b)), (ci, "clause_head", "clause_body"))
             n = len(clause_queries)
-            consult = "c20_fa%d(%s, X) :- X = %s.\n" % (n, lit(b), lit(a))
-            qid = "k%d_%d" % (ci, n)
-            clause_queries.append((qid, "c20_fa%d(B, A), c20_obs(false, A, B, %d, O)." % (n, c["k"]), consult))
-            qinfo[qid] = (ci, "clause_body", "clause_head")
+            addq(clause_queries, "k%d_%d" % (ci, n), "c20_fa%d(B, A), " % n, False, c["k"],
+                 "c20_fa%d(%s, X) :- X = %s.\n" % (n, lit(b), lit(a)), (ci, "clause_body", "clause_head"))
     dist["rep_pairs"] = len(queries) + len(clause_queries)
     answers = run_queries(ctx, queries, "qa", per_job=ctx.scale(200, 400))
     answers.update(run_queries(ctx, clause_queries, "qk", per_job=40))
+    allq = queries + clause_queries
+    panicking, rerun = recheck(ctx, allq, answers, qinfo, "qr")
+    dist["queries_rerun_alone"] = len(rerun)
+    dist["queries_panicking_first_pass"] = sum(1 for q in allq if panic_class(answers.get(q[0])) is not None)
+    qtext_of = {q[0]: q[1] + ("   %% with clauses: " + q[2].replace("\n", " ") if q[2] else "") for q in allq}
+    ops = [f for f in FIELDS]
+    for qid, found in bisect(ctx, panicking, qparts, ops, "qb").items():
+        ci, ka, kb = qinfo[qid]
+        msg = str(answers[qid].get("panic"))[:200]
+        if not found:
+            fail(shape_key("panic", ka, kb, "pstr:"), "observing a string panics (no single operation panics when run alone)", qtext_of[qid][:700], "panic: " + msg, "an observation")
+        for op, m in found:
+            prefix, mk = qparts[qid]
+            fail(shape_key(op, ka, kb), "operation `%s` on a string panics" % op, (prefix + mk(op))[:700], "panic: " + m, "the result the operation gives on the character list")
 
-    # group observations per case
+    # group observations per case (panicking queries are accounted for above)
     per_case = {}
     for qid, (ci, ka, kb) in qinfo.items():
-        c = allcases[ci]
         ans = answers.get(qid)
-        if not isinstance(ans, dict) or "b" not in ans or "O" not in ans["b"]:
-            per_case.setdefault(ci, {}).setdefault(("noresult", json.dumps(ans, ensure_ascii=False)[:300]), []).append((qid, ka, kb))
+        if panic_class(ans) is not None: continue
+        k = obs_key(ans)
+        if k is None:
+            fail(shape_key("no-result", ka, kb, "pstr:"), "building a string through a construction path and observing it gave no result (failure, error, timeout)",
+                 qtext_of[qid][:700], json.dumps(ans, ensure_ascii=False)[:300], "an observation term")
             continue
-        o = terms.from_json(ans["b"]["O"])
-        per_case.setdefault(ci, {}).setdefault(("obs", json.dumps(ans["b"]["O"], sort_keys=True)), []).append((qid, ka, kb, o))
-    qtext_of = {q[0]: q[1] for q in queries}
-    qtext_of.update({q[0]: q[1] + "   % with clauses: " + q[2].replace("\n", " ") for q in clause_queries})
-
+        per_case.setdefault(ci, {}).setdefault(k, []).append((qid, ka, kb, ans["b"]["O"]))
     bools, binfo = [], []
     n_multi = 0
     for ci, groups in per_case.items():
         c = allcases[ci]
         obs_groups = []
         for key, members in groups.items():
-            if key[0] == "noresult":
-                for (qid, ka, kb) in members[:3]:
-                    fail("pstr:no-result:%s/%s" % (ka, kb), "building a string through a construction path and observing it gave no result (failure, error or panic)",
-                         qtext_of[qid][:600], key[1], "an observation term")
-                continue
-            o = members[0][3]
-            rec, bad, wtext = decode_obs(o)
+            rec, bad, wtext = decode_obs(terms.from_json(members[0][3]))
             for (field, txt) in bad:
                 for (qid, ka, kb, _) in members[:2]:
                     fail(shape_key(field, ka, kb), "operation `%s` on a string gave a result of an unexpected shape (error, failure or not a character list)" % field,
-                         qtext_of[qid][:600], txt, "the result the operation gives on the character list")
-            obs_groups.append((rec, wtext, members, bad))
+                         qtext_of[qid][:700], txt, "the result the operation gives on the character list")
+            obs_groups.append((rec, wtext, members))
         if len(obs_groups) > 1: n_multi += 1
-        for (rec, wtext, members, bad) in obs_groups:
+        for (rec, wtext, members) in obs_groups:
             bools.append("check_obs %s %s %d %s" % (coq_codes(c["a"]), coq_codes(c["b"]), c["k"], rec))
             binfo.append((ci, rec, members))
         # writeq: compared between the construction paths only
         ws = {}
-        for (rec, wtext, members, bad) in obs_groups:
+        for (rec, wtext, members) in obs_groups:
             ws.setdefault(wtext, []).extend(members)
         if len(ws) > 1:
-            major = max(ws.values(), key=len)
+            major = max(ws, key=lambda w: len(ws[w]))
             for wtext, members in ws.items():
-                if members is major: continue
+                if wtext == major: continue
                 for (qid, ka, kb, _) in members[:2]:
-                    fail("pstr:writeq:%s" % ka, "writeq text of a string depends on how the string was built", qtext_of[qid][:600], repr(wtext), repr(next(w for w, m in ws.items() if m is major)))
+                    fail(shape_key("writeq", ka, kb), "writeq text of a string depends on how the string was built", qtext_of[qid][:700], repr(wtext), repr(major))
     bad_idx, errs = core.coq_eval_bools(ctx.prop, IMPORTS, bools, chunk=ctx.scale(300, 500), tag="ca")
     for _, t in errs:
         tie_breaks.append({"kind": "coq-eval", "what": "model evaluation shard failed (closed strings)", "detail": t[-1500:]})
-    # which fields differ: one batched evaluation
-    show = bad_idx[:12]
+    show = bad_idx[:16]
     if show:
         expr = "[" + "; ".join("diff_obs %s %s %d %s" % (coq_codes(allcases[binfo[i][0]]["a"]), coq_codes(allcases[binfo[i][0]]["b"]), allcases[binfo[i][0]]["k"], binfo[i][1]) for i in show) + "]"
         txt = core.coq_eval_show(ctx.prop, IMPORTS, expr)
-        import re
         m = re.search(r"=\s*\[(.*)\]\s*:\s*list \(list N\)", txt)
         groups = re.findall(r"\[([0-9; ]*)\]", m.group(1)) if m else []
         for j, i in enumerate(show):
@@ -623,54 +728,66 @@ def run(ctx):
                 for (qid, ka, kb, _) in members[:2]:
                     fail(shape_key(field, ka, kb), "operation `%s` on a string differs from the same operation on the character list it denotes" % field,
                          qtext_of[qid][:700], rec[:600], "predict %s %s %d (field %s)" % (coq_codes(c["a"])[:200], coq_codes(c["b"])[:200], c["k"], field))
+    for i in bad_idx[16:]:
+        ci, rec, members = binfo[i]
+        qid, ka, kb, _ = members[0]
+        fail(shape_key("some-operation", ka, kb), "an observation differs from the prediction on character lists", qtext_of[qid][:700], rec[:600], "predict")
     n_closed = len(bools)
 
     # ============================================================ C: partial strings
     pcases = gen_partial_cases(rng, ctx)
-    pq, pinfo = [], {}
+    pq, pinfo, pparts = [], {}, {}
     for pi, c in enumerate(pcases):
         dist["class"][c["cls"]] = dist["class"].get(c["cls"], 0) + 1
         tb = "TA" if c["k2"] == "same" else "TB"
         k2 = "var" if c["k2"] == "same" else c["k2"]
         ra = reps_partial(c["p1"], c["k1"], "TA", rng)
         rb = reps_partial(c["p2"], k2, tb, rng)
-        if c["k2"] == "same":
-            rb = [r for r in rb if r[0] not in ("copied_partial_string",)]   # copy_term would make a fresh tail variable
+        if c["k2"] == "same":   # copy_term would make a fresh tail variable
+            ra = [r for r in ra if r[0] != "copied_partial_string"]; rb = [r for r in rb if r[0] != "copied_partial_string"]
         pairs = [(ra[4], y) for y in rb] + [(x, rb[0]) for x in ra] + [(rng.choice(ra), rng.choice(rb)) for _ in range(6)]
         for (ka, ga), (kb, gb) in pairs:
-            if c["k2"] == "same" and ka == "copied_partial_string": continue
             qid = "p%d_%d" % (pi, len(pq))
-            pq.append((qid, "%s, %s, c20_pobs(A, TA, B, %s, O)." % (ga("A"), gb("B"), tb), "")); pinfo[qid] = (pi, ka, kb)
+            prefix = "%s, %s, " % (ga("A"), gb("B"))
+            pq.append((qid, "%sc20_pobs(A, TA, B, %s, O)." % (prefix, tb), "")); pinfo[qid] = (pi, ka, kb)
+            pparts[qid] = (prefix, lambda op, tb=tb: "c20_pop(%s, A, TA, B, %s, R)." % (op, tb))
     dist["rep_pairs"] += len(pq)
     pans = run_queries(ctx, pq, "qp", per_job=ctx.scale(200, 400))
+    ppanicking, prerun = recheck(ctx, pq, pans, pinfo, "qpr")
+    dist["queries_rerun_alone"] += len(prerun)
     ptext = {q[0]: q[1] for q in pq}
+    for qid, found in bisect(ctx, ppanicking, pparts, PFIELDS, "qpb").items():
+        pi, ka, kb = pinfo[qid]
+        msg = str(pans[qid].get("panic"))[:200]
+        if not found:
+            fail(shape_key("panic", ka, kb, "pstr:partial-"), "observing a partial string panics", ptext[qid][:700], "panic: " + msg, "an observation")
+        for op, m in found:
+            prefix, mk = pparts[qid]
+            fail(shape_key(op, ka, kb, "pstr:partial-"), "operation `%s` on a partial string panics" % op, (prefix + mk(op))[:700], "panic: " + m, "as on the explicit open list")
     pbools, pbinfo = [], []
     pgroups = {}
     for qid, (pi, ka, kb) in pinfo.items():
         ans = pans.get(qid)
-        if not isinstance(ans, dict) or "b" not in ans or "O" not in ans["b"]:
-            fail("pstr:no-result:partial:%s/%s" % (ka, kb), "building/observing a partial string gave no result", ptext[qid][:600], json.dumps(ans, ensure_ascii=False)[:300], "an observation term")
+        if panic_class(ans) is not None: continue
+        if obs_key(ans) is None:
+            fail(shape_key("no-result", ka, kb, "pstr:partial-"), "building/observing a partial string gave no result", ptext[qid][:700], json.dumps(ans, ensure_ascii=False)[:300], "an observation term")
             continue
-        o = terms.from_json(ans["b"]["O"])
-        (na, nb), rec, bad = decode_pobs(o, pcases[pi])
+        (na, nb), rec, bad = decode_pobs(terms.from_json(ans["b"]["O"]), pcases[pi])
         for (field, txt) in bad:
-            fail("pstr:partial-%s:%s/%s" % (field, ka, kb), "operation `%s` on a partial string gave a result of an unexpected shape" % field, ptext[qid][:600], txt, "as on the explicit open list")
+            fail(shape_key(field, ka, kb, "pstr:partial-"), "operation `%s` on a partial string gave a result of an unexpected shape" % field, ptext[qid][:700], txt, "as on the explicit open list")
         pgroups.setdefault((pi, na, nb, rec), []).append((qid, ka, kb))
+    def pexpr(fn, pi, na, nb, rec):
+        c = pcases[pi]; k2 = "var" if c["k2"] == "same" else c["k2"]
+        return "%s %s %s %s %s %s" % (fn, coq_codes(c["p1"]), tail_coq(c["k1"], na), coq_codes(c["p2"]), tail_coq(k2, nb), rec)
     for (pi, na, nb, rec), members in pgroups.items():
-        c = pcases[pi]
-        k2 = "var" if c["k2"] == "same" else c["k2"]
-        pbools.append("check_pobs %s %s %s %s %s" % (coq_codes(c["p1"]), tail_coq(c["k1"], na), coq_codes(c["p2"]), tail_coq(k2, nb), rec))
+        pbools.append(pexpr("check_pobs", pi, na, nb, rec))
         pbinfo.append((pi, na, nb, rec, members))
     pbad, errs = core.coq_eval_bools(ctx.prop, IMPORTS, pbools, chunk=ctx.scale(300, 500), tag="cp")
     for _, t in errs:
         tie_breaks.append({"kind": "coq-eval", "what": "model evaluation shard failed (partial strings)", "detail": t[-1500:]})
-    show = pbad[:12]
+    show = pbad[:16]
     if show:
-        import re
-        def pexpr(i):
-            pi, na, nb, rec, _ = pbinfo[i]; c = pcases[pi]; k2 = "var" if c["k2"] == "same" else c["k2"]
-            return "diff_pobs %s %s %s %s %s" % (coq_codes(c["p1"]), tail_coq(c["k1"], na), coq_codes(c["p2"]), tail_coq(k2, nb), rec)
-        txt = core.coq_eval_show(ctx.prop, IMPORTS, "[" + "; ".join(pexpr(i) for i in show) + "]")
+        txt = core.coq_eval_show(ctx.prop, IMPORTS, "[" + "; ".join(pexpr("diff_pobs", *pbinfo[i][:4]) for i in show) + "]")
         m = re.search(r"=\s*\[(.*)\]\s*:\s*list \(list N\)", txt)
         groups = re.findall(r"\[([0-9; ]*)\]", m.group(1)) if m else []
         for j, i in enumerate(show):
@@ -678,8 +795,12 @@ def run(ctx):
             fields = [PFIELDS[int(x)] for x in groups[j].split(";") if x.strip()] if j < len(groups) else ["unknown"]
             for field in fields[:4]:
                 for (qid, ka, kb) in members[:2]:
-                    fail("pstr:partial-%s:%s/%s" % (field, ka, kb), "operation `%s` on a partial string differs from the same operation on the open character list" % field,
+                    fail(shape_key(field, ka, kb, "pstr:partial-"), "operation `%s` on a partial string differs from the same operation on the open character list" % field,
                          ptext[qid][:700], rec[:600], "ppredict (field %s), tails numbered %d/%d" % (field, na, nb))
+    for i in pbad[16:]:
+        pi, na, nb, rec, members = pbinfo[i]
+        qid, ka, kb = members[0]
+        fail(shape_key("some-operation", ka, kb, "pstr:partial-"), "an observation of a partial string differs from the prediction", ptext[qid][:700], rec[:600], "ppredict")
 
     # ============================================================ layout tie through the heap hook
     lstrings = []
@@ -691,22 +812,22 @@ def run(ctx):
         ladd(rand_string(rng, n, "ascii"))
         ladd(rand_string(rng, n, "mixed"))
         if n <= 33: ladd(rand_string(rng, n, "nul"))
-    for c in cases[:ctx.scale(150, 1500)]:
+    for c in cases[:ctx.scale(200, 2000)]:
         if not c["big"]: ladd(c["a"])
     lines, linfo = [], []
     for i, s in enumerate(lstrings):
         bs = s.encode("utf-8")
         hx = bs.hex()
-        ops = ["S" + hx, "D", "Z" + hx]
+        ops_l = ["S" + hx, "D", "Z" + hx]
         locs = []
         if bs and 0 not in bs:
-            ops.append("N0")
+            ops_l.append("N0")
             bounds = [len(s[:j].encode("utf-8")) for j in range(1, len(s))]
-            locs = bounds if len(bounds) <= 12 else rng.sample(bounds, 12)
-            ops += ["N%d" % l for l in locs]
+            locs = bounds if len(bounds) <= 12 else sorted(rng.sample(bounds, 12))
+            ops_l += ["N%d" % l for l in locs]
         elif bs and bs[0] != 0:
-            ops.append("N0")
-        lines.append("%d\t%d\t%s" % (i, len(bs) // 8 + 8 + 2 * bs.count(0), ";".join(ops)))
+            ops_l.append("N0")
+        lines.append("%d\t%d\t%s" % (i, len(bs) // 8 + 8 + 2 * bs.count(0), ";".join(ops_l)))
         linfo.append((s, bs, locs))
     lres, crashed = core.vrun_mode(ctx.prop, "heap", lines, tag="ml")
     for cdesc in crashed:
@@ -744,12 +865,14 @@ def run(ctx):
         + len([1 for (s, bs, locs) in linfo if bs])
     dist["cases_with_more_than_one_observation"] = n_multi
     dist["closed_cases"] = len(allcases); dist["partial_cases"] = len(pcases); dist["layout_strings"] = len(lbools)
+    dist["failure_counts_by_key"] = dict(sorted(per_key.items()))
     samples = [{"query": q[1][:300]} for q in (queries[:2] + queries[len(queries) // 2:len(queries) // 2 + 2] + clause_queries[:1] + pq[:2])]
     samples.append({"heap": lines[5][:200], "result": (lres.get("5") or "")[:200]})
     return {"evaluations": evaluations, "distinct_nontrivial": distinct,
             "rule": ("closed cases (a, near-twin b, index k): lengths 0-20, 8k-1/8k/8k+1 (k<=9), 4095-4097, ASCII / multi-byte (2,3,4-byte characters, also straddling "
                      "cell boundaries) / NUL at start, middle, end, consecutive; tails at every offset 0..9 of strings of length 7..17; each case is observed under "
                      "30-60 pairs of construction paths (rep_pairs queries in all) by 22 operations; all observations of a case must coincide (each distinct "
-                     "observation is one Coq evaluation against predict). Partial cases: open lists with variable / same variable / [] / atom / integer tails "
-                     "through 9 construction paths. Layout: allocate_pstr + dump + scan at every character boundary. Non-trivial = distinct case with a non-empty string."),
+                     "observation is one Coq evaluation against predict; evaluations counts those plus the partial and layout evaluations). Partial cases: open "
+                     "lists with variable / same variable / [] / atom / integer tails through 9 construction paths. Layout: allocate_pstr + dump + scan at every "
+                     "character boundary. Non-trivial = distinct case with a non-empty string."),
             "samples": samples, "distribution": dist, "failures": failures, "tie_breaks": tie_breaks}
